@@ -17,7 +17,8 @@ META = {
     "text": "Theorems (Coq, no axioms) over a literal model of libStatus/Status (after the committed repairs F9, F21, F22, F24), of "
             "the node's add-block/reorg call sequence and of the block-producer election (bp.Snapshots/Cluster/GetRankers), for "
             "all producer counts and all delivery histories (arbitrary blocks and Confirms, forks) with restarts at every point, plus "
-            "blocks that fail at execution and crashes inside a reorganisation with recovery from the marker (after F40): "
+            "blocks that fail at execution or are refused by IsBlockValid (as children of the best block or at any position of a "
+            "branch being rolled forward) and crashes inside a reorganisation with recovery from the marker (after F40): "
             "the LIB height never decreases; a block numbered <= LIB and a reorganisation forking below the LIB change nothing; "
             "every main-chain block at or below a LIB ever reported stays forever; the LIB, all proposals and all confirms "
             "elements are on the main chain; a node's successive LIBs lie on one branch; a block becomes a proposed LIB only "
@@ -31,9 +32,11 @@ META = {
             "sparse proposal map), equality of the restored proposal map with the online one, and 'producer set is a function "
             "of the main chain' when BPCOUNT changes (F23: ranking cut at the in-memory BPCOUNT), and 'LIB on the main chain' after a "
             "reorganisation that fails at block k (F25/F39: the LIB bookkeeping of the failed branch survives the two Update(best) "
-            "calls of the error paths; proved intact when only children of the best block fail).",
+            "calls of the error paths; proved intact when only children of the best block fail; the confirms list however is "
+            "proved to be rebuilt from the main chain after every abandoned reorganisation, because Update tells a connected "
+            "block from a rollback target by the hash linkage).",
     "note": "Trusted: Coq kernel/vm_compute; 60-bit observation hash; the dpos engine's mirror of ChainService.addBlock/reorg around "
-            "Status (its call order, incl. the execution-failure sequences after F41/F42, is compared with the real ChainService by a "
+            "Status (its call order, incl. the execution-failure and IsBlockValid-refusal sequences after F41/F42, is compared with the real ChainService by a "
             "second engine that also reads the saved status back from the chain DB; block execution and orphan handling are "
             "C05/C07's); the emulated recovery sequence after a crash inside a reorg; the election engine's emulation of the in-memory BPCOUNT life cycle (InitSystemParams at "
             "start-up/end of reorg, CommitParams after AddSnapshot), no transaction is executed; generator; gob round-trip "
